@@ -234,4 +234,380 @@ theorem gapPairs_reverse : ∀ (L : List Blk), gapPairs L.reverse = (gapPairs L)
     simp only [List.reverse_cons, List.append_assoc, List.cons_append, List.nil_append] at ih ⊢
     rw [gapPairs_snoc, ih, Nat.min_comm, Nat.max_comm]
 
+/-! ### the expected gaps in terms of the optimised block list -/
+
+theorem expected_eq (S : List Blk) (st : Strand) (L : List Blk) (hL : ∀ b ∈ L, b.1 < b.2)
+    (hcov : ∀ q, coversBlocks L q = coversBlocks S q) (p : Nat) :
+    (decide (minStartOf L ≤ p) && decide (p < maxEndOf L) && !coversBlocks L p) =
+      gapExpected (.compound ⟨S, st⟩) p := by
+  have hF : ∀ b ∈ S.filter (fun b => decide (b.1 < b.2)), b.1 < b.2 := by
+    intro b hb
+    simpa using (List.mem_filter.mp hb).2
+  have hne := same_cov_ends L (S.filter (fun b => decide (b.1 < b.2))) hL hF
+    (fun q => by rw [hcov, cov_filter_pos])
+  unfold gapExpected
+  simp only [locationBlocks]
+  cases hf : S.filter (fun b => decide (b.1 < b.2)) with
+  | nil =>
+    have : L = [] := hne.1.mpr hf
+    subst this
+    simp [maxEndOf]
+  | cons x xs =>
+    simp only
+    rw [← hf, ← hne.2.1, ← hne.2.2, locationCovers_eq, locationBlocks, hcov]
+
+/-- `gap_list` of a constructor-made compound in closed form: `G` are the gaps in ascending order -/
+theorem gapList_compound (S : List Blk) (st : Strand) (hc : Loc.Canon ⟨S, st⟩) :
+    (st = .unstranded ∧ ans (gapList (.compound ⟨S, st⟩)) = none) ∨
+    ∃ G, ascSeparated G = true ∧ (∀ g ∈ G, g.2 ≤ maxEndOf S) ∧
+      (∀ p, coversBlocks G p = gapExpected (.compound ⟨S, st⟩) p) ∧
+      gapList (.compound ⟨S, st⟩) = .ok (if st = .minus then G.reverse else G) := by
+  obtain ⟨r, hr, hspec⟩ := optimizeLoc_spec false S st hc
+  have hsep := hspec.sep rfl
+  have hpos := hspec.pos
+  have hG : ascSeparated (gapPairs (locationBlocks r)) = true := gapPairs_asc _ hsep
+  have hB : ∀ g ∈ gapPairs (locationBlocks r), g.2 ≤ maxEndOf S := by
+    intro g hg
+    obtain ⟨b, hb, he⟩ := gapPairs_snd _ g hg
+    have := hspec.ends_le b hb
+    have := hpos b hb
+    omega
+  have hC : ∀ p, coversBlocks (gapPairs (locationBlocks r)) p = gapExpected (.compound ⟨S, st⟩) p := by
+    intro p
+    rw [gapPairs_cov _ hsep p]
+    exact expected_eq S st _ hpos hspec.cov p
+  have hV : ∀ (X : List Blk), ascSeparated X = true → X.all (fun g => decide (g.1 ≤ g.2)) = true := by
+    intro X hX
+    simp only [List.all_eq_true, decide_eq_true_eq]
+    intro g hg
+    exact Nat.le_of_lt (asc_pos X hX g hg)
+  match r, hr, hspec, hG, hB, hC with
+  | .empty, hr, _, hG, hB, hC =>
+    right
+    refine ⟨[], rfl, by simp, hC, ?_⟩
+    simp only [gapList, hr, ok_bind]
+    simp
+    rfl
+  | .single b s, hr, _, hG, hB, hC =>
+    right
+    refine ⟨[], rfl, by simp, hC, ?_⟩
+    simp only [gapList, hr, ok_bind]
+    simp
+    rfl
+  | .compound lo, hr, hspec, hG, hB, hC =>
+    have hst : lo.strand = st := by
+      rcases hspec.strand with h | h
+      · cases h
+      · simpa [locationStrand?] using h
+    simp only [locationBlocks] at hG hB hC
+    cases st with
+    | unstranded =>
+      left
+      refine ⟨rfl, ?_⟩
+      simp only [gapList, hr, ok_bind, scanBlocks, assertDirectional, hst]
+      simp
+      rfl
+    | plus =>
+      right
+      refine ⟨gapPairs lo.blocks, hG, hB, hC, ?_⟩
+      simp only [gapList, hr, ok_bind, scanBlocks, assertDirectional, hst]
+      simp [hV _ hG]
+      rfl
+    | minus =>
+      right
+      refine ⟨gapPairs lo.blocks, hG, hB, hC, ?_⟩
+      have hrev : (gapPairs lo.blocks).reverse.all (fun g => decide (g.1 ≤ g.2)) = true := by
+        rw [List.all_reverse]; exact hV _ hG
+      simp only [gapList, hr, ok_bind, scanBlocks, assertDirectional, hst]
+      simp [gapPairs_reverse, hrev]
+      rfl
+
+end BioCantor.Proofs.Gaps
+
+namespace BioCantor.Proofs.Gaps
+open BioCantor BioCantor.Spec BioCantor.Model BioCantor.Proofs
+
+/-! ### from `OptSpec` to the optimiser predicates -/
+
+theorem locationBases_perm (r : Location) : (locationBases r).Perm (basesPlus (locationBlocks r)) := by
+  cases r with
+  | empty => exact List.Perm.refl _
+  | single b s =>
+    simp only [locationBases, locationBlocks, bases_mk]
+    split
+    · exact List.reverse_perm _
+    · exact List.Perm.refl _
+  | compound l =>
+    obtain ⟨bs, st⟩ := l
+    simp only [locationBases, locationBlocks, bases_mk]
+    split
+    · exact List.reverse_perm _
+    · exact List.Perm.refl _
+
+theorem bound_of (a : PLoc) (ha : WFP a) (S : List Blk) (hS : locationBlocks a.1 = S) (bs : List Blk)
+    (hle : ∀ b ∈ bs, b.2 ≤ maxEndOf S) :
+    ∀ n, parentSeqLen a.2 = some n → ∀ b ∈ bs, b.2 ≤ n := by
+  intro n hn b hb
+  have h1 := hle b hb
+  have h2 : maxEndOf S ≤ n := (maxEndOf_le_iff S n).mpr (by rw [← hS]; exact ha.2.2 n hn)
+  omega
+
+theorem okOptimize_of (a : PLoc) (ha : WFP a) (S : List Blk) (st : Strand) (ha1 : a.1 = .compound ⟨S, st⟩)
+    (r : Location) (hs : OptSpec true S st r) : okOptimize a (some (withPar r a.2)) = true := by
+  have hS : locationBlocks a.1 = S := by rw [ha1]; rfl
+  simp only [okOptimize, withPar_fst, Bool.and_eq_true]
+  refine ⟨⟨⟨⟨⟨?_, ?_⟩, hs.noEmptyBlock⟩, ?_⟩, hs.kind⟩, ?_⟩
+  · exact resultOk_withPar r a.2 a.2 hs.wf (bound_of a ha S hS _ hs.ends_le) (sameParent_refl _)
+  · rw [beq_iff_eq]
+    apply sortNat_perm
+    refine (locationBases_perm r).trans ((hs.bases rfl).trans ?_)
+    rw [← hS]
+    exact (locationBases_perm a.1).symm
+  · rw [ha1]; exact hs.strandIs
+  · simp only [nonOverlapLoc, hS]
+    split
+    · rename_i hno
+      exact (hs.normal rfl hno).1
+    · rfl
+
+theorem okOptCombine_of (a : PLoc) (ha : WFP a) (S : List Blk) (st : Strand) (ha1 : a.1 = .compound ⟨S, st⟩)
+    (r : Location) (hs : OptSpec false S st r) : okOptCombine a (some (withPar r a.2)) = true := by
+  have hS : locationBlocks a.1 = S := by rw [ha1]; rfl
+  have hhi : hiOf [a.1] = maxEndOf S := by rw [hiOf_one, hS]
+  unfold okOptCombine
+  rw [ha1]
+  simp only [withPar_fst, Bool.and_eq_true]
+  rw [← ha1, hhi]
+  refine ⟨⟨⟨⟨⟨?_, ?_⟩, ?_⟩, hs.sep rfl⟩, ?_⟩, hs.kind⟩
+  · exact resultOk_withPar r a.2 a.2 hs.wf (bound_of a ha S hS _ hs.ends_le) (sameParent_refl _)
+  · simp only [endsWithin, List.all_eq_true, decide_eq_true_eq]
+    exact hs.ends_le
+  · rw [allUpTo_iff]
+    intro p _
+    rw [beq_iff_eq, hs.locationCovers, locationCovers_eq, hS]
+  · rw [ha1]; exact hs.strandIs
+
+end BioCantor.Proofs.Gaps
+
+namespace BioCantor.Proofs
+open BioCantor BioCantor.Spec BioCantor.Model
+
+/-- C02-T7a: optimize_blocks keeps the multiset of covered positions, drops empty blocks, honours the type promise, and yields the normal
+    form for layouts that are not self-overlapping -/
+theorem optimizeBlocksP_ok (a : PLoc) (ha : WFP a) : okOptimize a (ans (optimizeBlocksP a)) = true := by
+  match a, ha with
+  | (.empty, par), ha =>
+    have : par = [] := ha.2.1 rfl
+    subst this
+    rfl
+  | (.single b st, par), ha =>
+    by_cases h0 : b.2 - b.1 = 0
+    · have e : optimizeBlocksP (.single b st, par) = .ok (.empty, []) := by
+        simp [optimizeBlocksP, optimizeBlocks, Blk.len, h0, bind, Except.bind, pure, Except.pure, withPar]
+      rw [e]
+      have hb : basesPlus [b] = [] := by simp [basesPlus, blkAsc, h0]
+      simp [okOptimize, resultOk, wfLocation, parLen, locationBases, bases_mk, hb, sortNat, Spec.noEmptyBlock,
+        locationBlocks, Spec.strandIs, kindOk, normalBlocks, nonOverlapLoc, nonOverlap]
+    · have e : optimizeBlocksP (.single b st, par) = .ok (withPar (.single b st) par) := by
+        simp [optimizeBlocksP, optimizeBlocks, Blk.len, h0, bind, Except.bind, pure, Except.pure]
+      rw [e]
+      have hwf : b.1 ≤ b.2 := ha.1
+      have hr := resultOk_withPar (.single b st) par par (by simpa [wfLocation] using hwf) ha.2.2 (sameParent_refl _)
+      simp only [ans_ok, okOptimize, withPar_fst, Bool.and_eq_true]
+      refine ⟨⟨⟨⟨⟨hr, by simp⟩, ?_⟩, ?_⟩, rfl⟩, ?_⟩
+      · simp [Spec.noEmptyBlock, locationBlocks]; omega
+      · simp [Spec.strandIs]
+      · simp [nonOverlapLoc, nonOverlap, locationBlocks, normalBlocks]; omega
+  | (.compound ⟨S, st⟩, par), ha =>
+    obtain ⟨r, hr, hs⟩ := optimizeLoc_spec true S st ha.1
+    have e : optimizeBlocksP (.compound ⟨S, st⟩, par) = .ok (withPar r par) := by
+      simp only [optimizeBlocksP, optimizeBlocks, hr, ok_bind]; rfl
+    rw [e]
+    exact Gaps.okOptimize_of _ ha S st rfl r hs
+
+/-- C02-T7b: optimize_and_combine_blocks keeps the covered set and yields ascending blocks separated by at least one position -/
+theorem optimizeAndCombineP_ok (a : PLoc) (ha : WFP a) : okOptCombine a (ans (optimizeAndCombineP a)) = true := by
+  match a, ha with
+  | (.empty, par), _ => rfl
+  | (.single b st, par), _ => rfl
+  | (.compound ⟨S, st⟩, par), ha =>
+    obtain ⟨r, hr, hs⟩ := optimizeLoc_spec false S st ha.1
+    have e : optimizeAndCombineP (.compound ⟨S, st⟩, par) = .ok (withPar r par) := by
+      simp only [optimizeAndCombineP, optimizeAndCombine, hr, ok_bind]; rfl
+    rw [e]
+    exact Gaps.okOptCombine_of _ ha S st rfl r hs
+
+end BioCantor.Proofs
+
+namespace BioCantor.Proofs.Gaps
+open BioCantor BioCantor.Spec BioCantor.Model BioCantor.Proofs
+
+/-! ### from the closed form of `gap_list` to the gap predicates -/
+
+theorem ans_none {α} (x : R α) (h : ans x = none) : ∃ e, x = .error e := by
+  cases x with
+  | error e => exact ⟨e, rfl⟩
+  | ok v => simp at h
+
+/-- the gaps as returned (5'→3') -/
+def ordered (st : Strand) (G : List Blk) : List Blk := if st = .minus then G.reverse else G
+
+theorem ordered_perm (st : Strand) (G : List Blk) : (ordered st G).Perm G := by
+  unfold ordered; split
+  · exact List.reverse_perm _
+  · exact List.Perm.refl _
+
+theorem okGapList_of (a : PLoc) (S : List Blk) (st : Strand) (ha1 : a.1 = .compound ⟨S, st⟩) (G : List Blk)
+    (hasc : ascSeparated G = true) (hle : ∀ g ∈ G, g.2 ≤ maxEndOf S)
+    (hcov : ∀ p, coversBlocks G p = gapExpected a.1 p) :
+    okGapList a (some ((ordered st G).map (fun g => (st, g)))) = true := by
+  have hS : locationBlocks a.1 = S := by rw [ha1]; rfl
+  have hhi : hiOf [a.1] = maxEndOf S := by rw [hiOf_one, hS]
+  have hstr : locationStrand? a.1 = some st := by rw [ha1]; rfl
+  have hmap : ((ordered st G).map (fun g => (st, g))).map Prod.snd = ordered st G := by
+    simp [List.map_map, Function.comp_def]
+  simp only [okGapList, hmap, hhi, hstr, Bool.and_eq_true]
+  refine ⟨⟨⟨?_, ?_⟩, ?_⟩, ?_⟩
+  · simp [List.all_eq_true]
+  · simp only [List.all_eq_true, decide_eq_true_eq]
+    intro g hg
+    exact hle g ((ordered_perm st G).mem_iff.mp hg)
+  · rw [allUpTo_iff]
+    intro p _
+    rw [beq_iff_eq, coversBlocks_perm (ordered_perm st G), hcov]
+  · unfold ordered
+    cases st <;> simp [hasc]
+
+theorem okGaps_of (a : PLoc) (ha : WFP a) (S : List Blk) (st : Strand) (ha1 : a.1 = .compound ⟨S, st⟩)
+    (G : List Blk) (hasc : ascSeparated G = true) (hle : ∀ g ∈ G, g.2 ≤ maxEndOf S)
+    (hcov : ∀ p, coversBlocks G p = gapExpected a.1 p)
+    (hgl : gapList a.1 = .ok (ordered st G)) :
+    okGaps a (ans (gapsLocationP a)) = true := by
+  have hS : locationBlocks a.1 = S := by rw [ha1]; rfl
+  have hhi : hiOf [a.1] = maxEndOf S := by rw [hiOf_one, hS]
+  have hstr : locationStrand? a.1 = some st := by rw [ha1]; rfl
+  have hdisp : gapsLocationP a = (do
+      let gs ← gapList a.1
+      if gs.isEmpty then pure (.empty, [])
+      else do
+        let c ← mkCompoundLoc gs st
+        pure (.compound c, a.2)) := by
+    unfold gapsLocationP
+    rw [ha1]
+  rw [hdisp, hgl, ok_bind]
+  by_cases hG : G = []
+  · subst hG
+    have : ordered st [] = [] := by unfold ordered; split <;> rfl
+    rw [this]
+    simp only [List.isEmpty_nil, if_true, ans_pure, okGaps, Bool.and_eq_true]
+    refine ⟨⟨⟨⟨by simp [resultOk, wfLocation, parLen], by simp [endsWithin, locationBlocks]⟩, ?_⟩, by simp [Spec.strandIs]⟩, rfl⟩
+    rw [allUpTo_iff]
+    intro p _
+    rw [beq_iff_eq, ← hcov]
+    rfl
+  · have hne : ordered st G ≠ [] := by
+      intro h
+      have := (ordered_perm st G).symm.length_eq
+      rw [h] at this
+      exact hG (List.length_eq_zero_iff.mp this)
+    have hv : ∀ g ∈ ordered st G, g.1 ≤ g.2 := by
+      intro g hg
+      exact Nat.le_of_lt (asc_pos G hasc g ((ordered_perm st G).mem_iff.mp hg))
+    have hsort : sortBlocks st (ordered st G) = G :=
+      sortBlocks_eq_of_perm_sorted st (ordered_perm st G).symm (fst_lt_blkLe st G (asc_fst_lt G hasc))
+    have hemp : (ordered st G).isEmpty = false := by simpa using hne
+    have hcanon : Loc.Canon ⟨G, st⟩ := by
+      have := canon_sortBlocks st hne hv
+      rwa [hsort] at this
+    rw [hemp, mkCompoundLoc_ok st hne hv, hsort]
+    simp only [Bool.false_eq_true, if_false, ok_bind, ans_pure, okGaps, Bool.and_eq_true, hhi]
+    refine ⟨⟨⟨⟨?_, ?_⟩, ?_⟩, ?_⟩, hasc⟩
+    · exact resultOk_withPar (.compound ⟨G, st⟩) a.2 a.2 (by simpa [wfLocation] using hcanon)
+        (bound_of a ha S hS G hle) (sameParent_refl _)
+    · simp only [endsWithin, locationBlocks, List.all_eq_true, decide_eq_true_eq]
+      exact hle
+    · rw [allUpTo_iff]
+      intro p _
+      rw [beq_iff_eq, ← hcov]
+      rfl
+    · rw [hstr]
+      simp [Spec.strandIs, locationStrand?]
+
+theorem gapExpected_single (b : Blk) (st : Strand) (p : Nat) : gapExpected (.single b st) p = false := by
+  by_cases h : b.1 < b.2
+  · simp [gapExpected, locationBlocks, h, minStartOf, maxEndOf, locationCovers, coversBlocks]
+    intro h1 h2
+    exact ⟨of_decide_eq_true h1, h2⟩
+  · simp [gapExpected, locationBlocks, h]
+
+end BioCantor.Proofs.Gaps
+
+namespace BioCantor.Proofs
+open BioCantor BioCantor.Spec BioCantor.Model
+
+/-- C02-T6: gaps_location covers exactly the uncovered positions between the first and the last non-empty block -/
+theorem gapsLocationP_ok (a : PLoc) (ha : WFP a) : okGaps a (ans (gapsLocationP a)) = true := by
+  match a, ha with
+  | (.empty, par), _ => rfl
+  | (.single b st, par), _ =>
+    simp only [gapsLocationP, ans_pure, okGaps, Bool.and_eq_true]
+    refine ⟨⟨⟨⟨by simp [resultOk, wfLocation, parLen], by simp [endsWithin, locationBlocks]⟩, ?_⟩, by simp [Spec.strandIs]⟩, rfl⟩
+    rw [allUpTo_iff]
+    intro p _
+    rw [beq_iff_eq, Gaps.gapExpected_single]
+    rfl
+  | (.compound ⟨S, st⟩, par), ha =>
+    rcases Gaps.gapList_compound S st ha.1 with ⟨hst, hnone⟩ | ⟨G, hasc, hle, hcov, hgl⟩
+    · obtain ⟨e, he⟩ := Gaps.ans_none _ hnone
+      have : gapsLocationP (.compound ⟨S, st⟩, par) = .error e := by
+        simp only [gapsLocationP, he]; rfl
+      rw [this, hst]
+      rfl
+    · exact Gaps.okGaps_of _ ha S st rfl G hasc hle hcov hgl
+
+/-- C02-T6: gap_list gives the same gaps as single intervals on the location's strand in 5'→3' order -/
+theorem gapListP_ok (a : PLoc) (ha : WFP a) : okGapList a (ans (gapListP a)) = true := by
+  match a, ha with
+  | (.empty, par), _ => rfl
+  | (.single b st, par), _ =>
+    have e : gapListP (.single b st, par) = .ok [] := rfl
+    rw [e]
+    simp only [ans_ok, okGapList, List.map_nil, List.all_nil, List.reverse_nil, ite_self, Bool.true_and,
+      Bool.and_eq_true]
+    refine ⟨?_, rfl⟩
+    rw [allUpTo_iff]
+    intro p _
+    rw [beq_iff_eq, Gaps.gapExpected_single]
+    rfl
+  | (.compound ⟨S, st⟩, par), ha =>
+    rcases Gaps.gapList_compound S st ha.1 with ⟨hst, hnone⟩ | ⟨G, hasc, hle, hcov, hgl⟩
+    · obtain ⟨e, he⟩ := Gaps.ans_none _ hnone
+      have : gapListP (.compound ⟨S, st⟩, par) = .error e := by
+        simp only [gapListP, he]; rfl
+      rw [this, hst]
+      rfl
+    · have : gapListP (.compound ⟨S, st⟩, par) = .ok ((Gaps.ordered st G).map (fun g => (st, g))) := by
+        simp only [gapListP, hgl, ok_bind]; rfl
+      rw [this]
+      exact Gaps.okGapList_of _ S st rfl G hasc hle hcov
+
+end BioCantor.Proofs
+
+/-! ### the hypotheses are satisfiable on non-trivial inputs -/
+
+namespace BioCantor.Proofs.Gaps
+open BioCantor BioCantor.Spec BioCantor.Model BioCantor.Proofs
+
+/-- `optimizeBlocksP_ok`, `optimizeAndCombineP_ok`: overlapping, adjacent and zero-length blocks, minus strand, parent -/
+example : WFP ((.compound ⟨[(0, 2), (2, 4), (2, 2), (3, 5)], .minus⟩), [(some "chrA", none, some ['A','C','G','T','A'])]) := by
+  decide
+
+/-- `gapsLocationP_ok`, `gapListP_ok`: two gaps, a zero-length block inside a gap and one at the end, minus strand, parent -/
+example : WFP ((.compound ⟨[(0, 2), (3, 3), (4, 5), (7, 9), (9, 9)], .minus⟩),
+    [(some "chrA", none, some ['A','C','G','T','A','C','G','T','A'])]) := by
+  decide
+
+/-- an unstranded input (the refusal branch of `okGaps` / `okGapList`) -/
+example : WFP ((.compound ⟨[(0, 2), (4, 5)], .unstranded⟩), []) := by decide
+
 end BioCantor.Proofs.Gaps
